@@ -29,6 +29,7 @@ def main():
     ap.add_argument("--deadline", default=None)
     ap.add_argument("--json", default=None, help="append the result to this json-lines file")
     args = ap.parse_args()
+    args.patch = os.path.abspath(args.patch)
     st = sh("git -C /repo status --porcelain --untracked-files=no").stdout.strip()
     if st:
         print("refusing: /repo has uncommitted changes:\n" + st)
